@@ -10,12 +10,16 @@ dispute in the cache), "charged once" (the second of two identical submissions i
 and "no record without its owner" (the foreign keys). Which sections really are atomic on the real
 code, and that every schedule of two or three operations ends in a state some sequential order
 gives, is searched by the schedule exploration under the deterministic scheduler (not a proof).
+End to end, for every state of the tower invariant: `accepted_then_block_finds_it` /
+`accepted_then_block_answers_it` (A then the whole of B: the penalty is dealt with by that block's
+handler) and `block_then_late_add_is_triggered` (the whole of B then A: the triggered path).
 PARTIAL: the model is at critical-section granularity; tokio scheduling, the relaxed atomics of the
 height counters (start_block / in-mempool-since stamps may mix two heights) are outside it.
 -/
 import TeosVerif.Lemmas.Tower
 import TeosVerif.Lemmas.TowerInv
 import TeosVerif.Lemmas.TowerJust
+import TeosVerif.Lemmas.TowerBreach
 import TeosVerif.Props.C08
 
 namespace Teos.C10
@@ -237,6 +241,25 @@ theorem accepted_then_block_finds_it (s : Tower) (node : Node) (signer : Option 
     hinv'.alive hinv.alive
   have hk := hinv'.db.appt_keys (loc, u) (by rw [hrow]; rfl)
   exact ⟨u, hsg, early_add_found_by_block _ txs d (loc, u) a hd hrow hk hloc⟩
+
+/-- **accepted_then_block_answers_it** (A before B, to the end): a submission accepted while its
+locator is not in the cache, followed — immediately or in whatever block — by the watcher's handler
+for a block containing a transaction `d` with that locator under which the blob decrypts to `p`:
+the penalty `p` is dealt with by that handler (`Answered`: already known to the responder's index
+or memo, found in the node's mempool, or sent to the node), for every state of the tower invariant,
+every node and every block. -/
+theorem accepted_then_block_answers_it (s : Tower) (node : Node) (signer : Option User) (loc : Loc)
+    (blob : Blob) (tsd usig : Nat) (st sg av e : Nat) (hinv : TInv s)
+    (h : (addAppointment s node signer loc blob tsd usig).2.1 = .accepted st sg av e)
+    (hc : s.mem.cache.get loc = none) (node' : Node) (b height : Nat) (txs : List TxId) (d p : TxId)
+    (hd : d ∈ txs) (hloc : loc = locOf d) (hdec : blob.decrypt d = some p) :
+    Answered (addAppointment s node signer loc blob tsd usig).1 node'
+      (watcherConnect (addAppointment s node signer loc blob tsd usig).1 node' b height txs).2 p := by
+  have hinv' := tinv_addAppointment s node signer loc blob tsd usig hinv
+  obtain ⟨u, a, -, hrow, hblob, -⟩ := C08.receipt_only_if_taken_stored s node signer loc blob tsd usig st sg av e h hc
+    hinv'.alive hinv.alive
+  have hk := hinv'.db.appt_keys (loc, u) (by rw [hrow]; rfl)
+  exact watcherConnect_answers _ node' b height txs d p (loc, u) a hd hk hrow hloc (by rw [hblob]; exact hdec)
 
 /-- **double_submit_charged_once**: the second of two identical submissions (same key, same blob
 length — in particular the very same appointment) is charged nothing -/
